@@ -1,5 +1,5 @@
 #!/venv/bin/python
-"""tools/seed_all.py [-j N] [name-prefix ...]: re-confirms every stored seeded change (tests pass, demo fails
+"""tools/seed_all.py [-j N] [--resume LOG]... [name-prefix ...]: re-confirms every stored seeded change (tests pass, demo fails
 with / passes without) and runs the checks listed in its meta.json against it; writes seeded/RESULTS.md."""
 import concurrent.futures
 import json
@@ -35,14 +35,25 @@ def main():
     if args[:1] == ['-j']:
         jobs = int(args[1])
         args = args[2:]
+    prior = []
+    while args[:1] == ['--resume']:
+        # rows printed by an earlier, interrupted run of this script (same checks, same tree) are taken over
+        import ast
+        for line in open(args[1]):
+            if line.startswith('('):
+                prior.append(ast.literal_eval(line.strip()))
+        args = args[2:]
     names = sorted(n for n in os.listdir(os.path.join(HERE, 'seeded')) if os.path.isdir(os.path.join(HERE, 'seeded', n)))
     if args:
         names = [n for n in names if any(n.startswith(a) for a in args)]
-    rows = []
+    done = {r[0] for r in prior}
+    names = [n for n in names if n not in done]
+    rows = list(prior)
     with concurrent.futures.ThreadPoolExecutor(jobs) as ex:
         for r in ex.map(one, names):
             rows.append(r)
             print(r, flush=True)
+    rows.sort(key=lambda r: r[0])
     ok = 0
     lines = ['# Stored seeded changes against the current checks', '',
              'Produced by `tools/seed_all.py` (each change applied to a scratch worktree of `/repo` HEAD; quick tier).', '',
